@@ -90,6 +90,11 @@ Fixpoint dfs (cond : bool -> node -> bool) (gm : bool) (n : node) : list node :=
 Definition dfs_grid (cond : bool -> node -> bool) (roots : list node) : list node :=
   flat_map (dfs cond (gm_of roots)) roots.
 
+(* every component of the tree (batteries are only ids inside their inverters) *)
+Fixpoint nodes (n : node) : list node :=
+  n :: match n with Meter _ kids _ => flat_map nodes kids | _ => [] end.
+Definition all_nodes (roots : list node) : list node := flat_map nodes roots.
+
 (* ------------------------------------------------------------------ terms *)
 Definition term : Type := (Z * node * list node)%type.      (* sign, primary, fallback components *)
 Definition t_sign (t : term) : Z := fst (fst t).
@@ -182,18 +187,27 @@ Definition has_bats (n : node) : bool := match n with BatInv _ (_ :: _) _ => tru
 Definition battery_terms (fb : bool) (roots : list node) : list term :=
   flat_map (by_inverters is_bat_inv has_bats fb (gm_of roots)) roots.
 
-(* the pools over a subset: BatteryPowerFormula for the batteries of the inverters [bsel],
+(* the pools over a subset: BatteryPowerFormula for the battery ids [bids] (below),
    PVPowerFormula for the PV inverters [psel] (no ids = DFS for all PV chains) *)
 Definition mem (x : Z) (l : list Z) : bool := existsb (Z.eqb x) l.
-Definition bat_sel (bsel : list Z) (n : node) : bool := has_bats n && mem (nid n) bsel.
+(* BatteryPowerFormula for the battery ids [bids].  The batteries of an inverter are just ids, so
+   several inverters may share a battery (1:N, N:1, N:M); nothing below assumes the lists disjoint.
+   Every inverter that is a predecessor of a requested battery takes part, and all batteries behind
+   such an inverter must be requested, else FormulaGenerationError (None). *)
+Definition bat_sel (bids : list Z) (n : node) : bool :=
+  match n with BatInv _ bats _ => existsb (fun b => mem b bids) bats | _ => false end.
+Definition bat_closed (bids : list Z) (n : node) : bool :=
+  match n with BatInv _ bats _ => forallb (fun b => mem b bids) bats | _ => true end.
 Definition pv_sel (psel : list Z) (n : node) : bool := is_pv_inv n && mem (nid n) psel.
-Definition battery_pool_terms (fb : bool) (roots : list node) (bsel : list Z) : list term :=
-  flat_map (by_inverters is_bat_inv (bat_sel bsel) fb (gm_of roots)) roots.
+Definition battery_pool_terms (fb : bool) (roots : list node) (bids : list Z) : option (list term) :=
+  if forallb (fun n => implb (bat_sel bids n) (bat_closed bids n)) (all_nodes roots)
+  then Some (flat_map (by_inverters is_bat_inv (bat_sel bids) fb (gm_of roots)) roots)
+  else None.
 Definition pv_pool_terms (fb : bool) (roots : list node) (psel : list Z) : list term :=
   if is_nil psel then pv_terms fb roots
   else flat_map (by_inverters is_pv_inv (pv_sel psel) fb (gm_of roots)) roots.
-Definition battery_pool_terms_before_fix (fb : bool) (roots : list node) (bsel : list Z) : list term :=
-  flat_map (by_inverters_before_fix is_bat_inv (bat_sel bsel) fb (gm_of roots)) roots.
+Definition battery_pool_terms_before_fix (fb : bool) (roots : list node) (bids : list Z) : list term :=
+  flat_map (by_inverters_before_fix is_bat_inv (bat_sel bids) fb (gm_of roots)) roots.
 
 Fixpoint ev_nodes (n : node) : list node :=
   match n with Meter _ kids _ => flat_map ev_nodes kids | Ev _ _ => [n] | _ => [] end.
@@ -255,9 +269,6 @@ Definition f9_trigger (roots : list node) : bool :=
 (* The formula engine subscribes to component IDS.  [eval] above sums the readings of the nodes the
    terms name; [eval_by_id] looks every id up in the tree (proofs/GraphIds.v: the same number when
    the component ids are distinct). *)
-Fixpoint nodes (n : node) : list node :=
-  n :: match n with Meter _ kids _ => flat_map nodes kids | _ => [] end.
-Definition all_nodes (roots : list node) : list node := flat_map nodes roots.
 Definition lookup (roots : list node) (i : Z) : option node := find (fun n => nid n =? i) (all_nodes roots).
 Definition reading_of (roots : list node) (i : Z) : Z :=
   match lookup roots i with Some n => reading n | None => 0 end.
